@@ -60,6 +60,7 @@ class Corpus:
         cases += hist.gen_histories(self.g, rep.seed, per_type, maxlen=maxlen, mode=mode, types=types, guided=guided)
         if types is None and extra_cases is None:
             cases += incomplete_word_cases(self.g, rep.seed, 12 if per_type < 100 else 80)
+            cases += short_exhaustive_cases(self.g, self.classes, rep.seed, 3 if per_type < 100 else 4, 700 if per_type < 100 else 5000)
         self.cases = cases
         self.impl = impl.run_cases(cases)
         self.model = self.m.run_py(cases)
@@ -314,4 +315,27 @@ def incomplete_word_cases(g, seed, per_type, maxlen=5):
             if rng.random() < 0.8:
                 rng.shuffle(v)
             cases.append({'type': t, 'ops': [['a', s] for s in v] + [['f', 0], ['f', 1]]})
+    return cases
+
+
+def short_exhaustive_cases(g, classes, seed, maxlen=3, cap=700):
+    """ALL add-only histories up to maxlen (over the whole alphabet, or over a random 8-symbol part of it when that is too many) for the types
+    outside the machine classes - where the matcher is a heuristic and a particular short history is all it takes"""
+    import itertools
+    rng = random.Random(seed * 977 + 5)
+    cases = []
+    for t in g['types']:
+        if classes.get(t) in ('seq', 'noopt', 'bag', 'choice'):
+            continue
+        alpha = rx.alphabet(g['templates'][t])
+        if len(alpha) ** maxlen > cap:
+            # keep the names that occur more than once in the template (they are where re-homing happens) and fill up at random
+            flat = json.dumps(g['templates'][t])
+            rep_names = [a for a in alpha if flat.count('"%s"' % a) > 1]
+            rest = [a for a in alpha if a not in rep_names]
+            rng.shuffle(rest)
+            alpha = (rep_names + rest)[:8]
+        for ln in range(2, maxlen + 1):
+            for w in itertools.product(alpha, repeat=ln):
+                cases.append({'type': t, 'ops': [['a', x] for x in w] + [['f', 0]]})
     return cases
